@@ -3460,6 +3460,14 @@ func (p *Posix) DeleteObjects(ctx context.Context, input *s3.DeleteObjectsInput)
 // while it was being looked at
 var errObjectReplaced = errors.New("object replaced during read")
 
+// sameObjectFile reports whether two stats describe the same, unchanged
+// object file. Inode numbers are reused quickly by some file systems, so
+// two overwrites in a row could bring the first number back: size and
+// modification time have to agree as well
+func sameObjectFile(a, b fs.FileInfo) bool {
+	return os.SameFile(a, b) && a.Size() == b.Size() && a.ModTime().Equal(b.ModTime())
+}
+
 func (p *Posix) GetObject(ctx context.Context, input *s3.GetObjectInput) (*s3.GetObjectOutput, error) {
 	// size, ETag and metadata are read by path and the data from the file
 	// that is opened afterwards: when a concurrent overwrite (which
@@ -3666,7 +3674,7 @@ func (p *Posix) getObject(_ context.Context, input *s3.GetObjectInput) (*s3.GetO
 		f.Close()
 		return nil, fmt.Errorf("stat object: %w", err)
 	}
-	if !os.SameFile(fi, ofi) {
+	if !sameObjectFile(fi, ofi) {
 		f.Close()
 		return nil, errObjectReplaced
 	}
@@ -3911,7 +3919,7 @@ func (p *Posix) headObject(ctx context.Context, input *s3.HeadObjectInput) (*s3.
 	}
 
 	// everything above was read by path: make sure it was read from one file
-	if nfi, err := os.Stat(objPath); err != nil || !os.SameFile(fi, nfi) {
+	if nfi, err := os.Stat(objPath); err != nil || !sameObjectFile(fi, nfi) {
 		return nil, errObjectReplaced
 	}
 
